@@ -24,7 +24,7 @@ from ..core import (Ctx, HarnessError, VERIF, boolean, correspondence, first_dif
                     run_standard, s, tup)
 from ..coqterms import coq_graph
 
-IMPORTS = "Base States Linalg Graph Transition Observation Dist Hash"
+IMPORTS = "Base States Linalg Graph Transition Observation Dist Hash HashDist2"
 
 SMALL_G = {("tumor", "T"): ["A"], ("lnl", "A"): []}
 KW_DEFAULT = {"p": 0.5, "a": 0.5, "b": 1.0}
@@ -162,6 +162,14 @@ def edit_dspec(rng, d: dict, maxt: int):
 def gen_dist(rng) -> dict:
     maxt = rng.choice([0, 1, 2, 3, 4])
     a = gen_dspec(rng, maxt)
+    if rng.random() < 0.15:
+        # the SAME specification on another support (D23: == must answer False, not raise; the keys differ)
+        mb = maxt + 1 if (maxt == 0 or rng.random() < 0.5) else maxt - 1
+        b = copy.deepcopy(a)
+        if "frozen" in b:
+            b["frozen"] = (b["frozen"] + [rng.choice([0.0, 1.0, 2.0])]) if mb > maxt else (b["frozen"][:-1] if sum(b["frozen"][:-1]) > 0
+                                                                                          else [1.0] * (mb + 1))
+        return {"kind": "dist", "maxt": maxt, "maxt_b": mb, "a": a, "b": b, "via": "ctor", "kw0": None, "edit": "support"}
     edit, b = edit_dspec(rng, a, maxt)
     via, kw0 = "ctor", None
     if "fam" in b:
@@ -438,7 +446,7 @@ def dist_content(o):
 
 def impl_dist(c):
     a = build_dist(c["a"], c["maxt"])
-    b = build_dist(c["b"], c["maxt"], c["via"], c.get("kw0"))
+    b = build_dist(c["b"], c.get("maxt_b", c["maxt"]), c["via"], c.get("kw0"))
     ha, hb = hash(a), hash(b)
     return {"eq_ab": bool(a == b), "eq_ba": bool(b == a), "heq": ha == hb, "stable": ha == hash(a) and hb == hash(b),
             "A": dist_content(a), "B": dist_content(b), "eq_other": bool(a == "x")}
@@ -604,6 +612,10 @@ def coq_expr(c):
         return f"(mod_key_out {b} {ma}, mod_key_out {b} {mb}, mod_eq {b} {ma} {mb})"
     if k == "dist":
         t = nat(c["maxt"])
+        if "maxt_b" in c:
+            tb = nat(c["maxt_b"])
+            da, db = coq_dspec(c["a"], c["maxt"]), coq_dspec(c["b"], c["maxt_b"])
+            return f"(dist_key_out {t} {da}, dist_key_out {tb} {db}, dist_eq2 {t} {tb} {da} {db})"
         da, db = coq_dspec(c["a"], c["maxt"]), coq_dspec(c["b"], c["maxt"])
         return f"(dist_key_out {t} {da}, dist_key_out {t} {db}, dist_eq {t} {da} {db})"
     if k == "graph":
